@@ -58,7 +58,8 @@ def _module_consts(tree: ast.Module) -> dict[str, ast.expr]:
             tg, v = st.targets[0], st.value
         elif isinstance(st, ast.AnnAssign) and st.value is not None:
             tg, v = st.target, st.value
-        if isinstance(tg, ast.Name) and isinstance(v, (ast.Tuple, ast.List)) and all(isinstance(x, ast.Constant) for x in v.elts):
+        if isinstance(tg, ast.Name) and isinstance(v, (ast.Tuple, ast.List)) and v.elts and \
+                all(_simple(x) or (isinstance(x, ast.Tuple) and x.elts and all(_simple(y) for y in x.elts)) for x in v.elts):
             val[tg.id] = v
     return {k: v for k, v in val.items() if count.get(k) == 1}
 
@@ -112,6 +113,37 @@ class _Fold(ast.NodeTransformer):
             return ast.copy_location(ast.Constant(value=n.left.value + n.right.value), n)
         return n
 
+    def visit_Compare(self, n: ast.Compare) -> ast.AST:  # noqa: N802
+        self.generic_visit(n)
+        # N13: comparisons of two string / number / None constants (a helper parameter replaced by its argument)
+        if len(n.ops) == 1 and isinstance(n.left, ast.Constant) and isinstance(n.comparators[0], ast.Constant):
+            a, b = n.left.value, n.comparators[0].value
+            if isinstance(a, (str, int, float, bool, type(None))) and isinstance(b, (str, int, float, bool, type(None))):
+                op = n.ops[0]
+                try:
+                    if isinstance(op, ast.Eq):
+                        v = a == b
+                    elif isinstance(op, ast.NotEq):
+                        v = a != b
+                    elif isinstance(op, ast.Is) and (a is None or b is None):
+                        v = a is b
+                    elif isinstance(op, ast.IsNot) and (a is None or b is None):
+                        v = a is not b
+                    elif isinstance(op, ast.In) and isinstance(b, str) and isinstance(a, str):
+                        v = a in b
+                    else:
+                        return n
+                except TypeError:
+                    return n
+                return ast.copy_location(ast.Constant(value=bool(v)), n)
+        return n
+
+    def visit_IfExp(self, n: ast.IfExp) -> ast.AST:  # noqa: N802
+        self.generic_visit(n)
+        if isinstance(n.test, ast.Constant) and isinstance(n.test.value, bool):
+            return n.body if n.test.value else n.orelse
+        return n
+
     def visit_Call(self, n: ast.Call) -> ast.AST:  # noqa: N802
         self.generic_visit(n)
         if isinstance(n.func, ast.Name) and n.func.id == 'getattr' and len(n.args) == 2 and not n.keywords \
@@ -120,8 +152,143 @@ class _Fold(ast.NodeTransformer):
         return n
 
 
-def _fold(fn: ast.AST) -> None:
+_TABLES: dict[str, ast.Dict] = {}
+
+
+def set_tables(trees: list[ast.Module]) -> None:
+    """Module- and class-level names bound once to a dict literal with constant keys (dispatch tables)."""
+    _TABLES.clear()
+    count: dict[str, int] = {}
+    val: dict[str, ast.Dict] = {}
+    for tree in trees:
+        bodies = [tree.body] + [c.body for c in ast.walk(tree) if isinstance(c, ast.ClassDef)]
+        for body in bodies:
+            for st in body:
+                tg = st.targets[0] if isinstance(st, ast.Assign) and len(st.targets) == 1 else (st.target if isinstance(st, ast.AnnAssign) else None)
+                v = getattr(st, 'value', None)
+                if isinstance(tg, ast.Name):
+                    count[tg.id] = count.get(tg.id, 0) + 1
+                    if isinstance(v, ast.Dict) and v.keys and all(isinstance(k, ast.Constant) for k in v.keys):
+                        val[tg.id] = v
+    for k, v in val.items():
+        if count.get(k) == 1:
+            _TABLES[k] = v
+
+
+def _table_value(tab: ast.Dict, key: object) -> ast.expr | None:
+    for k, v in zip(tab.keys, tab.values):
+        if isinstance(k, ast.Constant) and k.value == key and type(k.value) is type(key):
+            if _simple(v) or (isinstance(v, ast.Tuple) and all(_simple(x) for x in v.elts)):
+                return copy.deepcopy(v)
+    return None
+
+
+class _Tables(ast.NodeTransformer):
+    """N15: TABLE['k'] / self.TABLE['k'] / TABLE.get('k') with a constant key -> the table entry."""
+
+    def _tab(self, e: ast.expr) -> ast.Dict | None:
+        if isinstance(e, ast.Name):
+            return _TABLES.get(e.id)
+        if isinstance(e, ast.Attribute) and isinstance(e.value, ast.Name) and e.value.id in ('self', 'cls'):
+            return _TABLES.get(e.attr)
+        return None
+
+    def visit_Subscript(self, n: ast.Subscript) -> ast.AST:  # noqa: N802
+        self.generic_visit(n)
+        tab = self._tab(n.value)
+        if tab is not None and isinstance(n.ctx, ast.Load) and isinstance(n.slice, ast.Constant):
+            v = _table_value(tab, n.slice.value)
+            if v is not None:
+                return ast.copy_location(v, n)
+        return n
+
+
+def _split_tuple_assigns(fn: ast.AST) -> None:
+    """N14: `a, b = x, y` -> `a = x; b = y` when no right-hand side reads a target."""
+    for _owner, blk in list(_blocks(fn)):
+        i = 0
+        while i < len(blk):
+            st = blk[i]
+            if isinstance(st, ast.Assign) and len(st.targets) == 1 and isinstance(st.targets[0], ast.Tuple) and isinstance(st.value, ast.Tuple) \
+                    and len(st.targets[0].elts) == len(st.value.elts) and not any(isinstance(x, ast.Starred) for x in st.targets[0].elts + st.value.elts):
+                tnames = {ast.unparse(t) for t in st.targets[0].elts}
+                reads = {ast.unparse(x) for v in st.value.elts for x in ast.walk(v) if isinstance(x, (ast.Name, ast.Attribute, ast.Subscript))}
+                if not (tnames & reads):
+                    blk[i:i + 1] = [ast.copy_location(ast.Assign(targets=[t], value=v, lineno=st.lineno), st) for t, v in zip(st.targets[0].elts, st.value.elts)]
+                    i += len(st.value.elts)
+                    continue
+            i += 1
+
+
+def _own_nodes(fn: ast.AST):  # noqa: ANN202
+    """Nodes of fn's own scope (nested function / class / lambda bodies excluded)."""
+    stack = list(fn.body)  # type: ignore[attr-defined]
+    while stack:
+        n = stack.pop()
+        yield n
+        if isinstance(n, (ast.FunctionDef, ast.AsyncFunctionDef, ast.ClassDef, ast.Lambda)):
+            continue
+        stack.extend(ast.iter_child_nodes(n))
+
+
+def _const_prop(fn: ast.AST, keep: set[str] | None = None) -> None:
+    """N16: a local bound exactly once, to a constant, is replaced by the constant (own scope only; names that a
+    nested function or lambda mentions are left alone)."""
+    stores: dict[str, int] = {}
+    own = list(_own_nodes(fn))
+    for n in own:
+        if isinstance(n, ast.Name) and isinstance(n.ctx, (ast.Store, ast.Del)):
+            stores[n.id] = stores.get(n.id, 0) + 1
+        elif isinstance(n, (ast.Global, ast.Nonlocal)):
+            for nm in n.names:
+                stores[nm] = stores.get(nm, 0) + 2
+    nested_names = {x.id for n in own if isinstance(n, (ast.FunctionDef, ast.AsyncFunctionDef, ast.ClassDef, ast.Lambda)) for x in ast.walk(n) if isinstance(x, ast.Name)}
+    nested_names |= {nm for n in own if isinstance(n, (ast.FunctionDef, ast.AsyncFunctionDef, ast.ClassDef, ast.Lambda)) for g in ast.walk(n) if isinstance(g, (ast.Global, ast.Nonlocal)) for nm in g.names}
+    a_ = fn.args  # type: ignore[attr-defined]
+    params = {x.arg for x in a_.posonlyargs + a_.args + a_.kwonlyargs} | ({a_.vararg.arg} if a_.vararg else set()) | ({a_.kwarg.arg} if a_.kwarg else set())
+    consts: dict[str, ast.Constant] = {}
+    for n in own:
+        if isinstance(n, ast.Assign) and len(n.targets) == 1 and isinstance(n.targets[0], ast.Name) and isinstance(n.value, ast.Constant) \
+                and isinstance(n.value.value, (str, int, float, bool, type(None))) and stores.get(n.targets[0].id) == 1 \
+                and n.targets[0].id not in params and n.targets[0].id not in nested_names and n.targets[0].id not in (keep or ()):
+            consts[n.targets[0].id] = n.value
+    if not consts:
+        return
+    for n in own:
+        for fld, val in ast.iter_fields(n):
+            if isinstance(val, ast.Name) and isinstance(val.ctx, ast.Load) and val.id in consts:
+                setattr(n, fld, ast.copy_location(copy.deepcopy(consts[val.id]), val))
+            elif isinstance(val, list):
+                for k, x in enumerate(val):
+                    if isinstance(x, ast.Name) and isinstance(x.ctx, ast.Load) and x.id in consts:
+                        val[k] = ast.copy_location(copy.deepcopy(consts[x.id]), x)
+    for _owner, blk in list(_blocks(fn)):
+        keep = [st for st in blk if not (isinstance(st, ast.Assign) and len(st.targets) == 1 and isinstance(st.targets[0], ast.Name) and st.targets[0].id in consts
+                                         and isinstance(st.value, ast.Constant) and any(st is o for o in own))]
+        if len(keep) != len(blk):
+            blk[:] = keep or [ast.copy_location(ast.Pass(), blk[0])]
+
+
+def _fold(fn: ast.AST, keep: set[str] | None = None) -> None:
+    if _TABLES:
+        _Tables().visit(fn)
+    _split_tuple_assigns(fn)
+    if isinstance(fn, (ast.FunctionDef, ast.AsyncFunctionDef)):
+        _const_prop(fn, keep)
     _Fold().visit(fn)
+    # N13: `if True/False:` left by the folding keeps only the live branch
+    again = True
+    while again:
+        again = False
+        for _owner, blk in list(_blocks(fn)):
+            for k, st in enumerate(blk):
+                if isinstance(st, ast.If) and isinstance(st.test, ast.Constant) and isinstance(st.test.value, bool):
+                    live = st.body if st.test.value else st.orelse
+                    blk[k:k + 1] = live or [ast.copy_location(ast.Pass(), st)]
+                    again = True
+                    break
+            if again:
+                break
     for _owner, blk in _blocks(fn):
         for k, st in enumerate(blk):
             if isinstance(st, ast.Expr) and isinstance(st.value, ast.Call) and isinstance(st.value.func, ast.Name) and st.value.func.id == 'setattr' \
@@ -189,29 +356,40 @@ def _self_field(e: ast.expr) -> ast.expr | None:
     """A copyable source: <name>.<attr>, cast(T, <name>.<attr>) or <name>[<constant>]."""
     if isinstance(e, ast.Call) and isinstance(e.func, ast.Name) and e.func.id == 'cast' and len(e.args) == 2 and not e.keywords:
         e = e.args[1]
-    if isinstance(e, ast.Attribute) and isinstance(e.value, ast.Name):
-        return e
+    if isinstance(e, ast.Attribute):
+        r = e
+        while isinstance(r, ast.Attribute):
+            r = r.value
+        if isinstance(r, ast.Name):
+            return e
     if isinstance(e, ast.Subscript) and isinstance(e.value, ast.Name) and isinstance(e.slice, ast.Constant):
         return e
     return None
 
 
-def _copy_prop(block: list[ast.stmt], mutable: set[str], in_init: bool) -> None:
+def _copy_prop(block: list[ast.stmt], mutable: set[str], in_init: bool, keep: set[str] | None = None) -> None:
     """N5 on one block (in place)."""
     i = 0
     while i < len(block):
         st = block[i]
         fld = _self_field(st.value) if isinstance(st, ast.Assign) and len(st.targets) == 1 and isinstance(st.targets[0], ast.Name) else None
+        if fld is not None and st.targets[0].id in (keep or ()):
+            fld = None
         if fld is not None:
             v = st.targets[0].id
             j = i + 1
-            base = fld.value.id  # type: ignore[attr-defined]
+            base = _root_name(fld) or ''
             if base == v:
                 i += 1
                 continue
             while j < len(block) and v not in _stores(block[j]) and base not in _stores(block[j]):
                 j += 1
-            frozen = isinstance(fld, ast.Attribute) and not in_init and '*' not in mutable and fld.attr not in mutable
+            chain = []
+            r_ = fld
+            while isinstance(r_, ast.Attribute):
+                chain.append(r_.attr)
+                r_ = r_.value
+            frozen = isinstance(fld, ast.Attribute) and not in_init and '*' not in mutable and not any(a_ in mutable for a_ in chain)
             while not frozen and j > i + 1 and _impure_between(block[i + 1:j], base):
                 j -= 1    # longest pure prefix: later reads keep using the local, which is still assigned
             seg = block[i + 1:j]
@@ -219,6 +397,25 @@ def _copy_prop(block: list[ast.stmt], mutable: set[str], in_init: bool) -> None:
                 sub = _Sub({v: st.value})
                 block[i + 1:j] = [sub.visit(s) for s in seg]
         i += 1
+
+
+def _drop_dead_copies(fn: ast.AST, keep: set[str] | None = None) -> None:
+    """After N5: `v = <name>.<field>` / `v = <name>['k']` whose every read was replaced is a dead store of a pure read."""
+    loads: dict[str, int] = {}
+    stores: dict[str, int] = {}
+    for n in ast.walk(fn):
+        if isinstance(n, ast.Name):
+            d = loads if isinstance(n.ctx, ast.Load) else stores
+            d[n.id] = d.get(n.id, 0) + 1
+    for _owner, blk in list(_blocks(fn)):
+        keep = []
+        for st in blk:
+            if isinstance(st, ast.Assign) and len(st.targets) == 1 and isinstance(st.targets[0], ast.Name) and _self_field(st.value) is not None \
+                    and not loads.get(st.targets[0].id) and stores.get(st.targets[0].id) == 1 and st.targets[0].id not in (keep or ()):
+                continue
+            keep.append(st)
+        if len(keep) != len(blk):
+            blk[:] = keep or [ast.copy_location(ast.Pass(), blk[0])]
 
 
 def _blocks(node: ast.AST):  # noqa: ANN202
@@ -346,7 +543,7 @@ def _drop_else(fn: ast.AST) -> None:
     fix(fn.body)  # type: ignore[attr-defined]
 
 
-def run(tree: ast.Module, mutable: set[str] | None = None) -> tuple[ast.Module, list[str]]:
+def run(tree: ast.Module, mutable: set[str] | None = None, modname: str = '') -> tuple[ast.Module, list[str]]:
     mutable = {'*'} if mutable is None else mutable
     log: list[str] = []
     consts = _module_consts(tree)
@@ -358,13 +555,19 @@ def run(tree: ast.Module, mutable: set[str] | None = None) -> tuple[ast.Module, 
                     a = ast.copy_location(ast.Assign(targets=[st.target], value=st.value, lineno=st.lineno), st)
                     a._kfv_ann = st.annotation  # type: ignore[attr-defined]
                     blk[k] = a
-    for fn in [n for n in tree.body if isinstance(n, (ast.FunctionDef, ast.AsyncFunctionDef))] + \
-            [m for c in ast.walk(tree) if isinstance(c, ast.ClassDef) for m in c.body if isinstance(m, (ast.FunctionDef, ast.AsyncFunctionDef))]:
+    from kfv import localnames
+    inv = localnames.table()
+    fns = [(f'{modname}.{n.name}', n) for n in tree.body if isinstance(n, (ast.FunctionDef, ast.AsyncFunctionDef))] + \
+          [(f'{modname}.{c.name}.{m.name}', m) for c in tree.body if isinstance(c, ast.ClassDef) for m in c.body if isinstance(m, (ast.FunctionDef, ast.AsyncFunctionDef))]
+    for q, fn in fns:
+        # locals the inventory knows by name are part of the shape the rules expect: never substituted away
+        keep = {k[0] for k in inv.get(q, [])} | {k[0] for qq, v in inv.items() if qq.startswith(q + '.<locals>.') for k in v}
         _drop_logging(fn)
         _drop_else(fn)
         _unroll(fn, consts, log)
-        _fold(fn)
+        _fold(fn, keep)
         for _owner, blk in _blocks(fn):
-            _copy_prop(blk, mutable, fn.name == '__init__')
+            _copy_prop(blk, mutable, fn.name == '__init__', keep)
+        _drop_dead_copies(fn, keep)
     ast.fix_missing_locations(tree)
     return tree, log
